@@ -164,7 +164,7 @@ class Types:
                 r = None
                 for n in astq.walk_no_nested(fi.node):
                     if isinstance(n, ast.Return) and n.value is not None:
-                        r = join(r, ft.of(n.value))
+                        r = join(r, ft._refine(n.value, ft.of(n.value)))
                 t = r if r is not None else UNK
         finally:
             self._busy.discard(key)
@@ -465,7 +465,13 @@ class FuncTypes:
             if name == "zip":
                 return ("list", ("tuple", tuple(elem(self.of(a)) for a in args)))
             if name in ("min", "max", "next"):
-                return elem(self.of(args[0])) if len(args) == 1 else UNK
+                if len(args) == 1:
+                    return elem(self.of(args[0]))
+                if name == "next" and len(args) == 2:
+                    if isinstance(args[1], ast.Constant) and args[1].value is None:
+                        return elem(self.of(args[0]))  # Optional[T]: None never enters a container of T here
+                    return join(elem(self.of(args[0])), self.of(args[1]))
+                return UNK
             if name == "map":
                 if args and isinstance(args[0], ast.Name) and args[0].id in _BUILTIN_RET:
                     return ("list", _BUILTIN_RET[args[0].id])
@@ -482,6 +488,13 @@ class FuncTypes:
             ct = self.ty._cls(self.fi.module.name, name)
             if ct != UNK:
                 return ct
+            try:  # X = namedtuple("X", [...]) at module level: instances are tuples of the argument types
+                hm0, hn0 = self.repo.const_home(self.fi.module.name, name)
+                ce = self.repo.modules[hm0].consts.get(hn0)
+                if isinstance(ce, ast.Call) and astq.callee_name(ce) in ("namedtuple", "NamedTuple"):
+                    return ("tuple", tuple(self.of(a) for a in args))
+            except Exception:
+                pass
             try:
                 hm, hn = self.repo.const_home(self.fi.module.name, name)
                 fi = self.repo.modules[hm].funcs.get(hn)
@@ -501,8 +514,14 @@ class FuncTypes:
                 for a in args:
                     r = join(r, elem(self.of(a)))
                 return ("list", r if r is not None else UNK)
+            if d == "dict.fromkeys":
+                return ("dict", elem(self.of(args[0])) if args else UNK, self.of(args[1]) if len(args) > 1 else UNK)
             if name == "query_pairs":
                 return ("set", ("tuple", ("int", "int")))
+            if name == "getRowList":  # mmcif DataCategory: rows are lists of str
+                return ("list", ("list", "str"))
+            if name == "getAttributeList":
+                return ("list", "str")
             bt = self.of(f.value)
             bt = self._refine(f.value, bt)
             if isinstance(bt, tuple):
